@@ -45,3 +45,8 @@ pub struct Thread {
     pub interrupt: bool,
     pub thread_index: usize,
 }
+// `Mutex::new(x)`: the lock around the context is not represented (R-lock)
+pub struct Mutex;
+impl Mutex {
+    pub fn new<T>(x: T) -> (r: T) ensures r == x { x }
+}
